@@ -52,8 +52,14 @@ ASSUMPTIONS = [
     "system-wide natives (virtual_mem, per_cpu_times, ppid_map, pids, QueryDosDevice), the front end's identity "
     "re-check (is_running() -> Process(pid)), the layer's status probes (is_zombie, pid_exists, pids) or "
     "os.path.exists/islink style predicates (they cannot report an error)",
-    "status probes answer by scenario state: live / gone (ESRCH, ENOENT, kill -> ESRCH) / zombie (SZOMB in the "
-    "oneshot record on BSD/macOS; pid still exists on Solaris/AIX); Windows has no zombie state",
+    "status probes answer by scenario state: live / gone (ESRCH, ENOENT, kill -> ESRCH) / zombie; the zombie state "
+    "is run once per native status code that kernel uses for a zombie (platstub.ZOMBIE_CODES, transcribed from "
+    "sys/proc.h and the comments of _psbsd.py: FreeBSD/NetBSD/macOS SZOMB, OpenBSD SDEAD and SZOMB; Solaris/AIX: "
+    "the pid still exists); Windows has no zombie state",
+    "a fail-one value that differs from the clean answer must be the answer of the documented fall-back, computed "
+    "from the other native record's slots by documented field name (Windows proc_info for memory_info/"
+    "memory_full_info/memory_percent/cpu_times/create_time/io_counters/num_handles, SunOS psinfo uid/gid for "
+    "uids()/gids()/username(), SunOS unresolved link path / '' / sub-list answers, exe guess, 'zombie')",
     "ENOENT from a native call is 'no such process'-class only where the layer says so (procfs layers sunos/aix, "
     "NetBSD exe): elsewhere NoSuchProcess or the unchanged FileNotFoundError are both accepted, AccessDenied never",
     "fail-all is crisp (must be NSP/AD, or the unchanged OSError for unrelated errnos); fail-one additionally "
@@ -253,12 +259,12 @@ class Res:
 
 
 def run_op(platform, opname, pid=PID, one=None, from_=None, state="live", pid0_listed=True,
-           salt=1, no_tty=False, tty_rdev=None, status=None):
+           salt=1, no_tty=False, tty_rdev=None, status=None, zcode=None):
     """Run `opname` on a fresh psutil.Process under a fault plan. -> Res"""
     env = setup(platform)
     w, ps = env["w"], env["ps"]
     w.reset(pid=pid, state="live", salt=salt, pid0_listed=pid0_listed, no_tty=no_tty, tty_rdev=tty_rdev,
-            status=status)
+            status=status, zombie_code=zcode)
     r = Res()
     r.construct_error = None
     with w.vk:
@@ -349,7 +355,7 @@ def judge_fault(platform, case, r, clean):
     op, pid, mode, state = case["op"], case["pid"], case["mode"], case["state"]
     faults = [f for (_i, _n, f) in r.fired]
     desc = (f"{platform} {op}() pid={pid} {mode} i={case['i']} inject={[fname(f) for f in case['faults']]} "
-            f"state={state} pid0_listed={case.get('pid0_listed', True)} fired="
+            f"state={state}{'/' + case['zcode'] if case.get('zcode') else ''} pid0_listed={case.get('pid0_listed', True)} fired="
             f"{[(i, n, fname(f)) for i, n, f in r.fired]} -> {describe(r)}")
     viols = []
 
@@ -441,7 +447,9 @@ def judge_fault(platform, case, r, clean):
             v(what)
         elif classes <= {"nsp", "enoent"}:
             if state == "zombie" and kind != "ZombieProcess":
-                v("zombie_not_reported")
+                zc = case.get("zcode", "SZOMB")
+                viols.append((f"zombie_not_reported:{platform}:{zc}", desc + f" | the status probe answered "
+                              f"cext.{zc}, which is how this kernel lists a zombie; ZombieProcess expected"))
             if state == "gone" and kind == "ZombieProcess":
                 v("zombie_reported_for_gone_pid")
     elif kind == "AccessDenied":
@@ -479,7 +487,98 @@ def judge_fault(platform, case, r, clean):
             v(what, "fail-all must raise" if crisp else "no documented fall-back swallows this error here")
         elif clean.kind == "value" and not shape_ok(r.value, clean.value):
             v("malformed_value_under_fault", f"clean={clean.value!r}"[:300])
+        elif mode == "one" and len(r.fired) == 1 and clean.kind == "value" and r.value != clean.value:
+            # a tolerated error changed the answer: it must be the answer the documented fall-back gives,
+            # computed here from the *other* native record's slots by documented field name (platstub.LAYOUT)
+            ok, want = fallback_value(platform, op, pid, r.fired[0][1], r, clean)
+            if not ok:
+                viols.append((f"fallback_value_wrong:{platform}:{op}", desc + f" | the value answered after the "
+                              f"tolerated error differs from the clean answer {str(clean.value)[:300]!r} and from "
+                              f"what the documented fall-back must give: {str(want)[:500]}"))
     return viols
+
+
+def _plain(v):
+    if isinstance(v, (list, tuple)):
+        return [_plain(x) for x in v]
+    return v
+
+
+def fallback_value(platform, op, pid, native, r, clean):
+    """Expected answer of a value-returning fall-back taken because `native` failed. -> (ok, description)"""
+    env = setup(platform)
+    w = env["w"]
+    got = r.value
+    base = op[2:] if op.startswith("L:") else op
+    layer = op.startswith("L:") or op.endswith("_layer")
+    want = None            # list of acceptable values
+    if base == "status":
+        want = ["zombie"]                       # front end: ZombieProcess -> STATUS_ZOMBIE
+    elif base in ("exe", "exe_layer"):
+        # layer: SunOS "" after a failed readlink; front end: absolute cmdline[0] if it is an executable, else ""
+        want = [""] if layer else ["/bin/sh", ""]
+    elif platform == "netbsd" and base == "cmdline":
+        want = [[]]
+    elif base == "cwd" and platform in ("sunos", "aix") and native == "fs:readlink":
+        want = [""]                             # documented: link not resolvable although the pid is alive
+    elif platform == "sunos" and native == "proc_cred":
+        b = w.record("proc_basic_info")
+        if base == "uids":
+            want = [(b["uid"], b["euid"], None)]
+        elif base == "gids":
+            want = [(b["gid"], b["egid"], None)]
+        elif base == "username":
+            want = [str(b["uid"])]
+    elif platform == "sunos" and base in ("open_files", "threads"):
+        rows = [tuple(x) for x in clean.value]
+        if all(tuple(x) in rows for x in got) and len(got) < len(rows):
+            return True, "a sub-list of the clean answer (entry gone in the meantime)"
+        want = ["<a sub-list of the clean answer>"]
+    elif platform == "sunos" and base in ("memory_maps", "memory_maps_ungrouped") and native == "fs:readlink":
+        link = f"/proc/{pid}/path/a.out"        # documented: "we just return the unresolved link path"
+        want = [[tuple(link if x == "/usr/bin/python3.9" else x for x in row) for row in clean.value]]
+    elif platform == "windows":
+        i = w.record("proc_info")
+        mem = (i["wset"], i["pagefile"], i["num_page_faults"], i["peak_wset"], i["wset"], i["peak_paged_pool"],
+               i["paged_pool"], i["peak_non_paged_pool"], i["non_paged_pool"], i["pagefile"], i["peak_pagefile"],
+               i["mem_private"])
+        cpu = (i["user_time"], i["kernel_time"], 0.0, 0.0)
+        if native == "proc_memory_info":
+            if base == "memory_info":
+                want = [mem]
+            elif base == "memory_full_info":
+                want = [mem + ((4242 + w.salt) * 4096,)]
+            elif base == "memory_percent":
+                # total physical memory is cached by the front end: compare the ratio to the clean answer
+                m = w.record("proc_memory_info")
+                if abs(got * m["wset"] - clean.value * i["wset"]) <= 1e-9 * abs(clean.value * i["wset"]):
+                    return True, "clean * proc_info.wset / proc_memory_info.wset"
+                want = [clean.value * i["wset"] / m["wset"]]
+            elif base == "oneshot":
+                c = list(clean.value)
+                c[3] = mem
+                want = [tuple(c)]
+        elif native == "proc_times":
+            if base == "cpu_times":
+                want = [cpu]
+            elif base == "create_time":
+                want = [i["create_time"]]
+            elif base == "oneshot":
+                c = list(clean.value)
+                c[2] = cpu
+                want = [tuple(c)]
+        elif native == "proc_io_counters" and base == "io_counters":
+            want = [(i["io_rcount"], i["io_wcount"], i["io_rbytes"], i["io_wbytes"], i["io_count_others"],
+                     i["io_bytes_others"])]
+        elif native == "proc_num_handles" and base == "num_handles":
+            want = [i["num_handles"]]
+    if want is None:
+        return False, "no documented fall-back answers with a different value here"
+    g = _plain(got)
+    for x in want:
+        if g == _plain(x):
+            return True, x
+    return False, want
 
 
 def fault_cases(platform, opname, pid, n, tier, pid0_listed=True):
@@ -492,6 +591,7 @@ def fault_cases(platform, opname, pid, n, tier, pid0_listed=True):
         if platform == "windows":
             faults += FAULTS_WIN_MORE
     out = []
+    zcodes = setup(platform)["platstub"].ZOMBIE_CODES.get(platform, [])
     base = dict(k="fault", platform=platform, op=opname, pid=pid)
     if not pid0_listed:
         base["pid0_listed"] = False
@@ -505,8 +605,9 @@ def fault_cases(platform, opname, pid, n, tier, pid0_listed=True):
             out.append(dict(base, mode="one", i=i, faults=[f], state="live"))
             out.append(dict(base, mode="from", i=i, faults=[f], state="gone" if k in ("nsp", "enoent") else "live"))
             if k in ("nsp", "enoent") and platform in ZOMBIE_PLATS and pid0_listed:
-                out.append(dict(base, mode="one", i=i, faults=[f], state="zombie"))
-                out.append(dict(base, mode="from", i=i, faults=[f], state="zombie"))
+                for zc in zcodes:        # once per native status code this kernel uses for a zombie
+                    out.append(dict(base, mode="one", i=i, faults=[f], state="zombie", zcode=zc))
+                    out.append(dict(base, mode="from", i=i, faults=[f], state="zombie", zcode=zc))
     for i in range(n):
         for j in range(i + 1, n):
             for fa in pair_faults:
@@ -532,7 +633,8 @@ def run_fault_case(platform, case, clean=None):
     start_state = {"zombie": "zombie", "gone0": "gone"}.get(state, "live")
     env = setup(platform)
     env["w"].gone_on_fire = state == "gone"
-    r = run_op(platform, op, pid=pid, one=one, from_=from_, state=start_state, pid0_listed=listed)
+    r = run_op(platform, op, pid=pid, one=one, from_=from_, state=start_state, pid0_listed=listed,
+               zcode=case.get("zcode"))
     env["w"].gone_on_fire = False
     return r, judge_fault(platform, case, r, clean)
 
@@ -557,7 +659,7 @@ DOC_FULLMEM = {"bsd": DOC_MEM["bsd"], "osx": DOC_MEM["osx"] + ("uss",), "sunos":
 DOC_MAPS = {"freebsd": ("rss", "private", "ref_count", "shadow_count"), "sunos": ("rss", "anonymous", "locked"),
             "windows": ("rss",)}
 # documented status strings (docs/index.rst "Process status constants"), keyed by the kernel's state name
-DOC_STATUS = {"SSLEEP": "sleeping", "SSTOP": "stopped", "SZOMB": "zombie", "SIDL": "idle", "SACTIVE": "running",
+DOC_STATUS = {"SDEAD": "zombie", "SSLEEP": "sleeping", "SSTOP": "stopped", "SZOMB": "zombie", "SIDL": "idle", "SACTIVE": "running",
               "SWAIT": "waiting", "SLOCK": "locked", "SONPROC": "running"}
 # docs net_connections() kind table
 KINDS = {"inet": ({socket.AF_INET, socket.AF_INET6}, {socket.SOCK_STREAM, socket.SOCK_DGRAM}),
@@ -1309,7 +1411,9 @@ def record_variants(platform, tier, env, salts=(1, 2)):
         ttys = env["ttys"]
         if ttys and platform in BSDS + ("osx",):
             out.append(dict(salt=1, tty_rdev=sorted(ttys)[0]))
-        for st in ("SSTOP", "SIDL", "SZOMB", "SWAIT", "SLOCK", "SONPROC", "SSLEEP", "SACTIVE"):
+        for st in ("SSTOP", "SIDL", "SZOMB", "SWAIT", "SLOCK", "SONPROC", "SSLEEP", "SACTIVE", "SDEAD"):
+            if st == "SDEAD" and platform != "openbsd":
+                continue            # only OpenBSD's table documents SDEAD (= zombie)
             if st in env["w"].consts and not (st == "SONPROC" and platform in BSDS):
                 out.append(dict(salt=1, status=st, only=["status", "L:status", "oneshot"]))
     return out
